@@ -257,7 +257,8 @@ static unsigned pf_write_i(
     }
 
     const unsigned max_written = pf_utoa(
-        pf_capacity_left(*out), out->data + out->length, imaxabs(i));
+        pf_capacity_left(*out), out->data + out->length,
+        i < 0 ? -(uintmax_t)i : (uintmax_t)i); // imaxabs(INTMAX_MIN) is undefined
 
     pf_write_leading_zeroes(out, max_written, fmt);
     return out->length - original_length;
